@@ -11,7 +11,8 @@ EmitLine(rec) ==
 Words == <<<<0, 0, 0, 0>>, <<0, 0, 0, 1>>, <<1, 2, 3, 4>>, <<127, 255, 255, 255>>, <<128, 0, 0, 0>>, <<255, 255, 255, 255>>, <<90, 171, 205, 239>>>>
          \o (IF IOEnv.VERIF_TIER = "thorough" THEN [k \in 1..60 |-> <<(k * 37) % 256, (k * 101) % 256, (k * 13 + 5) % 256, (k * 211) % 256>>] ELSE <<>>)
 Rand(w, n) == IF n <= 4 THEN SubSeq(Words[w], 1, n) ELSE Words[w] \o Fill(w, n - 4)
-Lens == <<0, 3, 4, 5, 31, 32, 33>> \o (IF IOEnv.VERIF_TIER = "thorough" THEN <<1, 2, 6, 7, 8, 16, 28, 30, 34, 48, 64, 255, 256, 1000>> ELSE <<>>)
+Lens == <<0, 3, 4, 5, 27, 28, 29, 31, 32, 33>>      \* (28 = the length of random_bytes alone: a slice is never "already split")
+        \o (IF IOEnv.VERIF_TIER = "thorough" THEN <<1, 2, 6, 7, 8, 16, 24, 30, 34, 36, 48, 64, 255, 256, 1000>> ELSE <<>>)
 None == <<>>
 Some(x) == <<x>>
 Sids == <<None, Some(<<7>>), Some(Fill(3, 32))>>
